@@ -29,6 +29,8 @@ type Case struct {
 	TFPkg, TFDir string
 	// ShortDefaultPkg: the short default_package_name used by the "short+override" variant ("" = structs)
 	ShortDefaultPkg string
+	// ProtoDir is the directory part of the proto file name in the request ("api/v1/")
+	ProtoDir string
 	// ProtoPkgSuffix is appended to the proto package (the case id), e.g. ".v1": protoc-gen-gogo
 	// then derives a Go package name with an underscore from it.
 	ProtoPkgSuffix string
@@ -328,6 +330,11 @@ func jsonTagCases() []*Case {
 			{Name: "X", Num: 1, T: dsl.String, JSONTag: dsl.S("alpha,omitempty")},
 			{Name: "my_other", Num: 2, T: dsl.Int32, JSONTag: dsl.S("beta,string")},
 			{Name: "Third", Num: 3, T: dsl.Bool, JSONTag: dsl.S("gamma,omitempty,inline")},
+			// json names are taken verbatim: lowerCamel, UpperCamel and an all-caps name next to their snake_case twins
+			{Name: "ClusterName", Num: 4, T: dsl.String, JSONTag: dsl.S("clusterName,omitempty")},
+			{Name: "LegacyClusterName", Num: 5, T: dsl.String, JSONTag: dsl.S("cluster_name,omitempty")},
+			{Name: "Ident", Num: 6, T: dsl.Int64, JSONTag: dsl.S("ID")},
+			{Name: "LowerIdent", Num: 7, T: dsl.Int64, JSONTag: dsl.S("id")},
 		}}
 		out = append(out, &Case{Label: "F1/jsontag/multi", Family: "F1", Tags: map[string]string{"card": "single", "vt": "jsontag", "class": "scalar", "pos": "P0"}, File: newFile(root), Cfg: BaseConfig("Root")})
 	}
